@@ -244,7 +244,9 @@ Proof.
     intros n s [nd Hn]. rewrite run_node_update_S, Hn. cbv zeta.
     sb; [apply unlink_deps_safe|].
     destruct (n_cb nd) as [c|]; [|site_ok]. destruct (n_value nd) as [old|]; [|site_ok].
-    sb; [apply Hdc|]. sb; [apply Hbody|].
+    sb; [apply Hdc|].
+    match goal with |- context [alive n ?s4] => destruct (alive n s4) eqn:Ha4 end; cbn [andb negb]; [|exact I].
+    sb; [apply Hbody|].
     match goal with |- context [alive n ?s6] => destruct (alive n s6) eqn:Ha end; cbn [andb negb]; [|exact I].
     match goal with |- context [link true n ?t ?s6] => destruct (link_ok n t s6) as [s7 [Hl Hal]] end.
     rewrite Hl; cbn [bind_res]. rewrite Hal, Ha.
